@@ -96,12 +96,7 @@ func (s *Schema) Example() (b []byte, err error) {
 		return nil, errors.NewDocumentError(s.file, errors.ErrEmptySchema)
 	}
 
-	b, err = newExampleBuilder(s.inner.TypesList()).Build(s.inner.RootNode())
-	if err != nil {
-		return nil, err
-	}
-	// The builder works in pooled buffers: hand out a copy the next call can't overwrite.
-	return append([]byte(nil), b...), nil
+	return newExampleBuilder(s.inner.TypesList()).Build(s.inner.RootNode())
 }
 
 func (s *Schema) AddType(name string, sc jschema.Schema) (err error) {
